@@ -24,7 +24,9 @@ Part 1 (precedence, coercion, unknown names) - for EVERY option of the live DEFA
     attributes, near-misses of declared options (prefix, `no_` prefix, suffix, other case); the
     same unknown name in every set of >= 2 channels of ONE object (constructor dict, file,
     environment, later update), different names per channel, load_all() twice;
-    `conf` chains (file -> conf, INSIGHTS_CONF); duplicate keys, key letter case.
+    `conf` chains (file -> conf, INSIGHTS_CONF); duplicate keys, key letter case;
+  * the legacy negated spelling `no_gpg` and `gpg` in every pair of sources, all values: the
+    highest source that says anything about the setting, through either spelling, wins.
   Oracle: the attribute is the (coerced) value of the highest-priority source that set it
   (CLI > env > file > default), compared type-strictly; a ValueError is accepted only when the
   constructor refuses the very same final value too (an option may refuse a value, e.g.
@@ -983,6 +985,85 @@ def check_unknown_multi(case, S):
     return out, info
 
 
+# ---- part 1: legacy / negated spellings of an option, translated per source ------------------
+# (alias, option, value the option gets when the alias is truthy). The only translation block of the loader is
+# `no_gpg` -> gpg=False; a falsy alias says nothing about the option.
+ALIASES = [("no_gpg", "gpg", False)]
+
+
+def gen_alias():
+    """The full product: per source (file, env) option in {unset, True, False} x alias in {unset, True, False}, command
+    line in {unset, negating flag}; once and with load_all() twice. Contains the alias in source X with the option
+    in source Y for every ordered pair of sources and both values."""
+    cases = []
+    tri = (None, True, False)
+    for alias, opt, _ in ALIASES:
+        if alias not in meta() or opt not in meta():
+            continue
+        has_flag = bool(meta()[opt]["opt"]) and not takes_value(meta()[opt])
+        for fo in tri:
+            for fa in tri:
+                for eo in tri:
+                    for ea in tri:
+                        for cli in ((False, True) if has_flag else (False,)):
+                            for reload in (False, True):
+                                cases.append({"kind": "alias", "alias": alias, "opt": opt, "file": [fo, fa],
+                                              "env": [eo, ea], "cli": cli, "reload": reload})
+    return cases
+
+
+def check_alias(case, S):
+    alias, opt = case["alias"], case["opt"]
+    implied = [v for a, o, v in ALIASES if a == alias and o == opt][0]
+    mo = meta()[opt]
+    conf = os.path.join(S, "c.conf")
+    lines, env, argv = ["[%s]" % CURRENT], {}, ["--conf", conf]
+    (fo, fa), (eo, ea) = case["file"], case["env"]
+    for k, v in ((opt, fo), (alias, fa)):
+        if v is not None:
+            lines.append("%s=%s" % (k, v))
+    for k, v in ((opt, eo), (alias, ea)):
+        if v is not None:
+            env[env_key(k)] = "true" if v else "false"
+    cli_says = None
+    if case["cli"]:
+        argv.append(mo["opt"][0])
+        cli_says = mo["action"] == "store_true"
+    tag, got = load(conf, "\n".join(lines) + "\n", env, argv, times=2 if case.get("reload") else 1)
+    # what each source says about the option, through either spelling (highest first)
+    says = [("cli", [cli_says] if cli_says is not None else None)]
+    for src, o, a in (("env", eo, ea), ("file", fo, fa)):
+        if a:
+            # the legacy spelling speaks; next to a contradicting modern spelling in the SAME source either may win
+            says.append((src, [implied] if o in (None, implied) else [implied, o]))
+        elif o is not None:
+            says.append((src, [o]))
+        else:
+            says.append((src, None))
+    winner, acc = "default", [mo["default"]]
+    for src, v in says:
+        if v is not None:
+            winner, acc = src, v
+            break
+    want_alias = ea if ea is not None else fa if fa is not None else meta()[alias]["default"]
+    speakers = [src for src, v in says if v is not None]
+    feats = {"alias": alias, "opt": opt, "winner": winner, "speakers": "+".join(speakers),
+             "reload": bool(case.get("reload"))}
+    info = {"nontrivial": len(speakers) > 1 and len(set(repr(v) for _, v in says if v is not None)) > 1, "tag": tag,
+            "outcome": "alias:%s:%s:%s" % ("+".join(speakers), winner, tag)}
+    if tag != "ok":
+        return [("load:crash" if tag == "crash" else "alias:load-refused", "a configuration",
+                 "%s: %s" % (tag, got), feats)], info
+    out = []
+    if not any(same(getattr(got, opt), a) for a in acc):
+        out.append(("precedence:alias-highest-source-wins",
+                    "%s in %r (said by %s)" % (opt, acc, winner), "%s=%r" % (opt, getattr(got, opt)), feats))
+    if not same(getattr(got, alias), want_alias):
+        out.append(("precedence:highest-source-wins", "%s=%r" % (alias, want_alias),
+                    "%s=%r" % (alias, getattr(got, alias)), dict(feats, opt=alias)))
+    return out + structural(got, S), info
+
+
 # ---- part 1: conf chains, duplicate keys, letter case (mostly lenient) ----------------------
 
 def gen_misc():
@@ -1299,6 +1380,8 @@ def check_case(case, S):
         return check_unknown(case, S)
     if k == "unk2":
         return check_unknown_multi(case, S)
+    if k == "alias":
+        return check_alias(case, S)
     if k in ("impl", "ctor"):
         return check_impl(case, S)
     if k == "hist":
@@ -1319,6 +1402,7 @@ def units(tier, seed):
     us = [{"part": "prec", "opts": ch} for ch in enumx.chunks(names, 41)]
     us.append({"part": "unknown"})
     us += [{"part": "unk2", "shard": i, "of": 6} for i in range(6)]
+    us += [{"part": "alias", "shard": i, "of": 2} for i in range(2)]
     us.append({"part": "misc"})
     us += _range_units("impl", 1 << len(QC), 512, space="QC", where="A")
     us += _range_units("impl", 1 << len(QC), 512, space="QC", where="B")
@@ -1355,6 +1439,9 @@ def unit_cases(unit, tier):
             yield c
     elif part == "unk2":
         for c in enumx.shard(gen_unknown_multi(), unit["shard"], unit["of"]):
+            yield c
+    elif part == "alias":
+        for c in enumx.shard(gen_alias(), unit["shard"], unit["of"]):
             yield c
     elif part == "misc":
         for c in gen_misc():
